@@ -37,7 +37,7 @@ class AsyncSubject(Subject[_T]):
             has_value = self.has_value
             value = self.value
 
-        if ex:
+        if ex is not None:
             observer.on_error(ex)
         elif has_value:
             observer.on_next(value)
